@@ -16,6 +16,7 @@ import (
 	"math/big"
 	"math/rand"
 	"sort"
+	"strings"
 
 	"github.com/MinterTeam/minter-go-node/coreV2/events"
 	"github.com/MinterTeam/minter-go-node/coreV2/state/bus"
@@ -24,20 +25,20 @@ import (
 )
 
 type c14Order struct {
-	id                 uint32
-	owner              types.Address
-	buyCoin, sellCoin  types.CoinID
-	side               int      // 0: owner buys the lower coin id (taker sells it), 1: owner buys the higher coin id
-	wb0, ws0           *big.Int // as placed
-	wb, ws             *big.Int // remaining according to the reference
-	sold, bought       *big.Int // cumulative fills
-	refunded           *big.Int
-	height             uint64 // block passed to PairAddOrder
-	fills              int
-	closed             string  // "", filled, little, cancel, expired
-	fT, fI             float64 // float64(ws/wb) (price for the taker), float64(wb/ws) of the remaining volumes
-	fT0, fI0           float64 // the same for the volumes as placed
-	how                string  // how its price was generated
+	id                uint32
+	owner             types.Address
+	buyCoin, sellCoin types.CoinID
+	side              int      // 0: owner buys the lower coin id (taker sells it), 1: owner buys the higher coin id
+	wb0, ws0          *big.Int // as placed
+	wb, ws            *big.Int // remaining according to the reference
+	sold, bought      *big.Int // cumulative fills
+	refunded          *big.Int
+	height            uint64 // block passed to PairAddOrder
+	fills             int
+	closed            string  // "", filled, little, cancel, expired
+	fT, fI            float64 // float64(ws/wb) (price for the taker), float64(wb/ws) of the remaining volumes
+	fT0, fI0          float64 // the same for the volumes as placed
+	how               string  // how its price was generated
 }
 
 func (o *c14Order) refloat() {
@@ -72,38 +73,42 @@ func mustPrecede(u, f *c14Order) bool {
 }
 
 type c14 struct {
-	ctx    *WorkCtx
-	r      *rand.Rand
-	b      *bareState
-	log    *opLog
-	nviol  int
-	owners []types.Address
-	c0, c1 types.CoinID // c0 < c1
-	all    map[uint32]*c14Order
-	live   [2][]*c14Order
-	closedIDs []uint32
-	block  uint64 // block being built (orders get this height); committed blocks = block-1
+	ctx           *WorkCtx
+	r             *rand.Rand
+	b             *bareState
+	log           *opLog
+	nviol         int
+	owners        []types.Address
+	c0, c1        types.CoinID // c0 < c1
+	all           map[uint32]*c14Order
+	live          [2][]*c14Order
+	closedIDs     []uint32
+	block         uint64          // block being built (orders get this height); committed blocks = block-1
 	lastCommitted map[uint32]bool // ids present on disk (added before the last commit)
-	afterReload bool
-	maxDepth int
-	expirePeriod uint64
-	dead   bool // state unusable after a panic inside a mutating call
-	prof   c14Profile
+	afterReload   bool
+	maxDepth      int
+	expirePeriod  uint64
+	dead          bool // state unusable after a panic inside a mutating call
+	prof          c14Profile
 }
 
 type c14Profile struct {
-	depth    int // target number of live orders
-	ops      int
-	pMin     int // per mille of near-minimum sized orders
-	pTie     int // per mille of adds re-using an existing price (tie / scaled / adjacent)
+	depth       int // target number of live orders
+	ops         int
+	pMin        int // per mille of near-minimum sized orders
+	pTie        int // per mille of adds re-using an existing price (tie / scaled / adjacent)
 	commitEvery int
-	reloadPm int
+	reloadPm    int
 }
 
 func (c *c14) sw() *swap.SwapV2 { return c.b.St.SwapV2 }
 
 func (c *c14) viol(rule, site, format string, a ...interface{}) {
-	pkgViol(c.ctx, c.log, &c.nviol, rule, site, fmt.Sprintf(format, a...))
+	d := fmt.Sprintf(format, a...)
+	if strings.Contains(d, hangMarker) {
+		c.dead = true // the pair's lock is held by the call that never returned: abandon the case
+	}
+	pkgViol(c.ctx, c.log, &c.nviol, rule, site, d)
 }
 
 func init() {
